@@ -13,6 +13,33 @@ Proof.
   intros Hf. destruct (G O Hf) as (_ & Hn & Hp). rewrite Nat.sub_0_r in Hn. auto.
 Qed.
 
+(* kv_set keeps the index list duplicate-free *)
+Lemma kv_set_in (l : list (nat * val)) : forall i x p, In p (kv_set l i x) -> In p l \/ p = (i, x).
+Proof.
+  induction l as [|[j y] r IH]; intros i x p Hp; cbn [kv_set] in Hp.
+  - destruct Hp as [<-|[]]. right. reflexivity.
+  - destruct (Nat.eqb i j) eqn:E.
+    + apply Nat.eqb_eq in E. subst j. destruct Hp as [<-|Hp]; [right; reflexivity|left; right; exact Hp].
+    + destruct Hp as [<-|Hp]; [left; left; reflexivity|]. destruct (IH i x p Hp) as [Hi|Hs]; [left; right; exact Hi|right; exact Hs].
+Qed.
+
+Lemma kv_set_fst (l : list (nat * val)) : forall i x, map fst (kv_set l i x) = map fst l \/ (~ In i (map fst l) /\ map fst (kv_set l i x) = map fst l ++ [i]).
+Proof.
+  induction l as [|[j y] r IH]; intros i x; cbn [kv_set map fst].
+  - right. split; [intros []|reflexivity].
+  - destruct (Nat.eqb i j) eqn:E; [left; reflexivity|]. apply Nat.eqb_neq in E. cbn [map fst].
+    destruct (IH i x) as [->|[Hn ->]]; [left; reflexivity|]. right. split; [|reflexivity]. intros [Hj|Hi]; [congruence|exact (Hn Hi)].
+Qed.
+
+Lemma kv_set_nodup (l : list (nat * val)) i x : NoDup (map fst l) -> NoDup (map fst (kv_set l i x)).
+Proof.
+  intros Hn. destruct (kv_set_fst l i x) as [->|[Hi ->]]; [exact Hn|].
+  apply NoDup_rev in Hn. rewrite <- (rev_involutive (map fst l ++ [i])). apply NoDup_rev. rewrite rev_app_distr. cbn [rev app].
+  constructor; [rewrite <- in_rev; exact Hi|exact Hn].
+Qed.
+
+
+
 
 Section Digest.
   Variable env : list (bytes * ty).
@@ -253,7 +280,10 @@ Section Create.
              find_idx (fun x => key_id x =? sid) em O = Some (ei, ee) -> kv_get ents ei = Some ev ->
              exists j alg data h,
                dv = VUnion j (VSeq [VRaw alg; VRaw (CBytes h)])
-               /\ to_cbor env fuel (key_ty ee) ev = Ok data /\ hash_of' alg data = Ok h).
+               /\ to_cbor env fuel (key_ty ee) ev = Ok data /\ hash_of' alg data = Ok h)
+      (* the serialised object has the member list of the object built from the description (digests updated in place) *)
+      /\ (exists ents0, from_obj env hash_names H uuid5 fs json_loads json_dumps severable_ids steps_processed steps_digest_ext fuel (TRef root) o
+                          = Ok (VTagged (VKV ents0)) /\ (NoDup (map fst ents0) -> NoDup (map fst ents))).
   Proof.
     unfold create. fold root. rewrite Hsteps.
     destruct (from_obj _ _ _ _ _ _ _ _ _ _ fuel (TRef root) o) as [e0|] eqn:E0; cbn [bind]; [|discriminate].
@@ -271,7 +301,7 @@ Section Create.
     exists (kv_set (kv_set ents0 mi (VKV ments')) ai (VSeq (VUnion j (VSeq [a; VRaw (CBytes h)]) :: blocks))), em, mm, ai, ae, mi, me, ments'.
     split; [exact Hout|]. split; [assumption|]. split; [assumption|]. split; [assumption|].
     split; [rewrite kv_get_set_other by assumption; apply kv_get_set_same|]. split; [assumption|].
-    split.
+    split; [|split].
     - cbn [digest_alg] in Halg. destruct a as [ca|?|?|?|?|?]; try discriminate. injection Halg as ->.
       exists j, alg, blocks, alg, mb, h. split; [apply kv_get_set_same|]. auto.
     - intros sid si se ai' dv at_ ei ee ev Hin Hsi Hgs Hat Hisd Hei Hev.
@@ -286,5 +316,6 @@ Section Create.
       destruct (digest_set_bytes _ _ _ Hds') as (j' & a' & old' & -> & ->).
       cbn [digest_alg] in Halg'. destruct a' as [ca|?|?|?|?|?]; try discriminate. injection Halg' as ->.
       exists j', alg', data, h'. auto.
+    - exists ents0. split; [reflexivity|]. intros Hn0. apply kv_set_nodup. apply kv_set_nodup. exact Hn0.
   Qed.
 End Create.
